@@ -82,6 +82,31 @@ Definition invoker_map (n_jobs : nat) (xs : list A) (sched : list ev) : list (re
 
 End Pool.
 
+(* ---- the worker process ------------------------------------------------------------------------------
+   What a task function returns depends on its arguments AND on the process-wide environment it is evaluated in
+   (E: floating-point control word -- rounding, flush-to-zero --, default dtype, error state ...).  A worker is
+   spawned with the default environment, runs the initialiser (generated steps) and then serves
+   worker.worker(arg) = __work_context.func(__work_context.model, arg). *)
+Section Worker.
+Context {E C A R : Type}.
+
+Record wproc := mkW { w_env : E; w_ctx : option C }.
+
+Definition init_step_run (rebuilt : C) (w : wproc) (st : init_step) : wproc :=
+  match st with
+  | InitRebuildContext => mkW (w_env w) (Some rebuilt)
+  | InitDeclareGlobals | InitCurrentProcess | InitFilterWarnings => w
+  end.
+
+Definition worker_init (rebuilt : C) (e0 : E) : wproc :=
+  fold_left (init_step_run rebuilt) worker_init_steps (mkW e0 None).
+
+(* a call before the context exists is a NameError (error 7) *)
+Definition worker_call (f : E -> C -> A -> res R) (w : wproc) (x : A) : res R :=
+  match w_ctx w with Some c => f (w_env w) c x | None => Err 7 end.
+
+End Worker.
+
 (* the caller iterates the outcomes; the first exception propagates: (values received, error) *)
 Fixpoint consume {R} (l : list (res R)) : list R * option nat :=
   match l with
